@@ -154,3 +154,26 @@ ENSURES(RET == 1 || RET == -1)
 ENSURES(RET == 1 IMPLIES *outlen <= maxlen)
 ;
 #endif
+
+#ifdef CONTRACT_TLS13_PARSERS
+/* TLS 1.3 parsers of src/tls13.c that consume peer data through the wire-format readers: they return (termination is the
+   decreases clause of the annotated loop), and success means every field was actually read from inside the window */
+int tls13_process_server_key_share(const uint8_t *ext_data, size_t ext_datalen, SM2_Z256_POINT *point)
+REQUIRES((ext_datalen == 0 || RD_OK(ext_data, ext_datalen)) && WR_OK(point, sizeof(*point)))
+ASSIGNS(OBJ_UPTO((uint8_t *)point, sizeof(*point)))
+ENSURES(RET == 1 || RET == -1)
+;
+int tls13_server_hello_extensions_get(const uint8_t *exts, size_t extslen, SM2_Z256_POINT *sm2_point)
+REQUIRES(extslen <= 65535 && (extslen == 0 || RD_OK(exts, extslen)) && WR_OK(sm2_point, sizeof(*sm2_point)) && SEPARATE(exts, sm2_point))
+ASSIGNS(OBJ_UPTO((uint8_t *)sm2_point, sizeof(*sm2_point)))
+ENSURES(RET == 1 || RET == -1)
+;
+int tls13_record_get_handshake_certificate_verify(const uint8_t *record, int *sign_algor, const uint8_t **sig, size_t *siglen)
+REQUIRES(REC_REQ(record) && WR_OK(sign_algor, sizeof(int)) && WR_OK(sig, sizeof(*sig)) && WR_OK(siglen, sizeof(size_t)))
+ASSIGNS(*sign_algor, *sig, *siglen)
+ENSURES(RET == 1 || RET == -1)
+/* success: the signature is a slice of the record (possibly empty) and the algorithm was read from it */
+ENSURES(RET == 1 IMPLIES (*siglen == 0 ? *sig == NULL : REC_SLICE(*sig, *siglen, record)))
+ENSURES(RET == 1 IMPLIES (*sign_algor >= 0 && *sign_algor <= 65535))
+;
+#endif
